@@ -131,3 +131,137 @@ def check_ref_loops(ctx, rule, fn, loaders, label=None, require=1):
         else:
             ctx.ok(rule, key, "guarded by a visited-set test / counter", fn.where(h))
     return found
+
+
+GUARD_CALLS = ["StackSafeContext::enter", "RecursionGuard::new", "StackSafeContext::check_depth", "enter_scope"]
+
+
+def check_recursion(ctx, rule, scope, label="scope", allow=None):
+    """every call-graph cycle among `scope` needs a depth guard: a guard call, or an integer
+    parameter passed on as `param + const` and compared with a constant before the recursive call"""
+    facts = ctx.facts
+    allow = allow or {}
+    sc = set(scope)
+
+    def succ(f):
+        return [g for g in facts.callees.get(f, ()) if g in sc or (facts.fns.get(g) is not None and facts.fns[g].kind == "Closure" and facts.fns[g].parent in sc)]
+    nodes = list(sc)
+    comps = CF.sccs(nodes, succ)
+    n = 0
+    for comp in comps:
+        comp = sorted(comp)
+        if len(comp) == 1 and comp[0] not in facts.callees.get(comp[0], ()):
+            continue
+        n += 1
+        key = "recursion:%s" % "+".join(L.short(c) for c in comp if not c.endswith("}"))[:120]
+        guarded = None
+        for f in comp:
+            fn = facts.fns[f]
+            if L.calls_to(fn, GUARD_CALLS):
+                guarded = "guard call in %s" % L.short(f)
+                break
+            # depth parameter
+            fl = FL.flow(fn)
+            g = CF.cfg(fn)
+            for b, c, a, d, t, u in fn.calls():
+                r = c.get("r") or c.get("p")
+                if r not in comp:
+                    continue
+                for op in a:
+                    pl = FL.op_place(op)
+                    if pl is None or fn.locals[pl[0]] not in ("u8", "u16", "u32", "usize", "i32"):
+                        continue
+                    seen, drecs = fl.back_slice([pl[0]], stop_at_calls=lambda cc: True)
+                    adds = [dd for dd in drecs if dd[0] == "stmt" and fn.blocks[dd[1]][0][dd[2]][2][0] == "bin" and
+                            fn.blocks[dd[1]][0][dd[2]][2][1].startswith("Add")]
+                    params = [x for x in seen if 1 <= x <= fn.nargs and fn.locals[x] in ("u8", "u16", "u32", "usize", "i32")]
+                    if not (adds and params):
+                        continue
+                    for sb in g.dominators(b):
+                        for st in fn.blocks[sb][0]:
+                            rv = st[2]
+                            if rv[0] == "bin" and rv[1] in ("Lt", "Le", "Gt", "Ge") and (rv[2][0] == "k" or rv[3][0] == "k" or True):
+                                cs, _ = fl.back_slice(FL.op_locals(rv[2]) + FL.op_locals(rv[3]), stop_at_calls=lambda cc: True)
+                                if set(params) & cs:
+                                    guarded = "depth parameter of %s incremented and compared" % L.short(f)
+            if guarded:
+                break
+        if key in allow:
+            ctx.ok(rule, key, "reviewed: " + allow[key], facts.fns[comp[0]].where())
+        elif guarded:
+            ctx.ok(rule, key, guarded, facts.fns[comp[0]].where())
+        else:
+            ctx.violation(rule, key, "the functions %s call each other recursively with no depth guard (no guard call, no depth "
+                          "parameter compared with a bound): input nested deeply enough overflows the stack and aborts the process"
+                          % [L.short(c) for c in comp], facts.fns[comp[0]].where(), {"cycle": comp})
+    ctx.counts["%s:%s:recursive-cycles" % (rule, label)] = n
+    return n
+
+
+def check_progress(ctx, rule, fns, cursor_fields=("position", "pos"), allow=None):
+    """every loop of the given scanner functions is iterator-driven or advances the cursor (a field
+    named in cursor_fields, or a local compared in the loop and increased) on every path back to
+    its header; calls to sibling scanner methods that advance on every returning path count."""
+    facts = ctx.facts
+    # summary: functions that advance the cursor on every normally-returning path
+    def writes_cursor(fn, b):
+        for st in fn.blocks[b][0]:
+            pl = st[1]
+            if pl[1] and any(isinstance(p, list) and p[0] == "f" and p[2] in cursor_fields for p in pl[1]):
+                rv = st[2]
+                if rv[0] in ("use",) or rv[0] == "bin":
+                    return True
+        return False
+    advancing = set()
+    changed = True
+    while changed:
+        changed = False
+        for fn in fns:
+            if fn.id in advancing:
+                continue
+            g = CF.cfg(fn)
+            adv_blocks = [b for b in range(len(fn.blocks)) if writes_cursor(fn, b) or
+                          (fn.term(b)[0] == "call" and (fn.term(b)[1].get("r") in advancing))]
+            rets = g.return_blocks()
+            if rets and g.path(0, rets, avoid_blocks=adv_blocks) is None:
+                advancing.add(fn.id)
+                changed = True
+    n = 0
+    for fn in fns:
+        g = CF.cfg(fn)
+        for h, body in sorted(g.loops().items()):
+            n += 1
+            key = "%s:loop@L%d-progress" % (L.short(fn.id), len([x for x in sorted(g.loops()) if x <= h]))
+            if is_iterator_driven(fn, g, body, h):
+                ctx.ok(rule, key, "iterator-driven", fn.where(h), nontrivial=False)
+                continue
+            adv = [b for b in body if writes_cursor(fn, b) or (fn.term(b)[0] == "call" and fn.term(b)[1].get("r") in advancing)]
+            # local cursors: locals increased inside the loop and compared in the loop
+            latches = [s for s, hh in g.back_edges() if hh == h]
+            w = None
+            for l in latches:
+                p = g.path(h, [l], avoid_blocks=[b for b in adv if b != h])
+                if p is not None and not (set(p) & set(adv)):
+                    # allow paths that contain an increment of a local counter
+                    inc = False
+                    for b in p:
+                        for st in fn.blocks[b][0]:
+                            rv = st[2]
+                            if rv[0] == "bin" and rv[1].startswith("Add") and (FL.op_const(rv[3]) not in (None, 0) or FL.op_const(rv[2]) not in (None, 0)):
+                                inc = True
+                        t = fn.term(b)
+                        if t[0] == "call" and L.is_call_to(t[1], ["Vec::<T, A>::pop", "Iterator::next", "VecDeque::<T, A>::pop_front"]):
+                            inc = True
+                    if not inc:
+                        w = p
+            if w is not None and allow and key in allow:
+                ctx.ok(rule, key, "reviewed: " + allow[key], fn.where(h))
+            elif w is not None:
+                ctx.violation(rule, key, "a path around the loop at %s makes no progress: it neither advances the scan cursor nor "
+                              "consumes an element — on input that keeps taking this path the scanner never terminates" % fn.where(h),
+                              fn.where(h), {"path_lines": [fn.line(x) for x in w][:12]})
+            else:
+                ctx.ok(rule, key, "cursor advances on every path back to the header", fn.where(h))
+    ctx.counts["%s:scanner-loops" % rule] = n
+    ctx.counts["%s:advancing-functions" % rule] = len(advancing)
+    return n
